@@ -1504,8 +1504,24 @@ struct TemplateCore {
             }
 
             case QOperation::Remainder: { // %
-                left.Value.Number.Integer = (left % right);
-                left.Type                 = ExpressionType::IntegerNumber;
+                if (right.Type == ExpressionType::RealNumber) {
+                    right.Value.Number.Integer = SizeT64I(right.Value.Number.Real);
+                    right.Type                 = ExpressionType::IntegerNumber;
+                }
+
+                if (right.Value.Number.Integer == 0) {
+                    // Remainder by zero has no value.
+                    return false;
+                }
+
+                if (right.Value.Number.Integer == -1) {
+                    // x % -1 is 0; the hardware traps on the minimum value.
+                    left.Value.Number.Integer = 0;
+                } else {
+                    left.Value.Number.Integer = (left % right);
+                }
+
+                left.Type = ExpressionType::IntegerNumber;
                 break;
             }
 
